@@ -55,3 +55,30 @@ Example C07_mpeg4audio_example :
    | _ => []
    end) = [DFrame [[1;2]]; DMore; DFrame [[8;9;10;11;12;13;14]]; DFrame [[15]]; DFrame [[16;17]]].
 Proof. vm_compute. reflexivity. Qed.
+
+(* ---- the translated kernels (tools/go2coq, regenerated from the Go source on every run) ----
+   The resynchronisation tests of rtpmpeg4audio/decoder.go - d.fragmentsSize == 0, the two len(dataLens) != 1,
+   d.fragmentNextSeqNum = pkt.SequenceNumber + 1, the continuity test pkt.SequenceNumber != d.fragmentNextSeqNum,
+   d.fragmentNextSeqNum++ - ARE the tests of Model.dec: dsize d =? 0, match lens with [l0], seq_next (pseq p),
+   pseq p =? dnext d, seq_next (dnext d). *)
+From Coq Require Import ZArith.
+From GVG Require Import Kern.
+From GV_mpeg4audio Require Import BridgeLib Bridge.
+Open Scope Z_scope.
+
+Theorem C07_mpeg4audio_kernels_are_the_code : forall (seq next fs : N) (lens : list N),
+  k_mpeg4audio_dec_idle (Z.of_N fs) = (fs =? 0)%N /\
+  k_mpeg4audio_dec_one_a (Z.of_N (nlen lens)) = match lens with [_] => false | _ => true end /\
+  k_mpeg4audio_dec_one_b (Z.of_N (nlen lens)) = match lens with [_] => false | _ => true end /\
+  k_mpeg4audio_dec_nextseq (Z.of_N seq) = Z.of_N (seq_next seq) /\
+  k_mpeg4audio_dec_gap (Z.of_N seq) (Z.of_N next) = negb (seq =? next)%N /\
+  k_mpeg4audio_dec_incseq (Z.of_N next) = Z.of_N (seq_next next).
+Proof. exact Bridge.resync_kernels_are_the_code. Qed.
+Print Assumptions C07_mpeg4audio_kernels_are_the_code.
+
+Example C07_mpeg4audio_example_kernels :
+  k_mpeg4audio_dec_nextseq 65535 = 0 /\ k_mpeg4audio_dec_incseq 9 = 10 /\
+  k_mpeg4audio_dec_gap 10 10 = false /\ k_mpeg4audio_dec_gap 11 10 = true /\
+  k_mpeg4audio_dec_idle 0 = true /\ k_mpeg4audio_dec_idle 1 = false /\
+  k_mpeg4audio_dec_one_a 1 = false /\ k_mpeg4audio_dec_one_a 2 = true /\ k_mpeg4audio_dec_one_b 0 = true.
+Proof. vm_compute. repeat split. Qed.
